@@ -160,6 +160,33 @@ fn run_ops(sink: AnySink, recv: &mut Recv, ops: &str, queued: bool) -> String {
                 // keep the receive queue short so that the OS never drops anything
                 recv.drain(&mut got, 0);
             }
+            "P" => {
+                // the emit is made by a destructor that runs while its thread unwinds from a panic (a scope guard reporting
+                // "request finished"): an emit like any other
+                let m = String::from_utf8(unhex(&op[1..])).expect("utf8");
+                let out: std::sync::Mutex<Option<std::io::Result<usize>>> = std::sync::Mutex::new(None);
+                struct Guard<'a>(&'a AnySink, &'a str, &'a std::sync::Mutex<Option<std::io::Result<usize>>>);
+                impl<'a> Drop for Guard<'a> {
+                    fn drop(&mut self) {
+                        *self.2.lock().unwrap() = Some(self.0.emit(self.1));
+                    }
+                }
+                std::thread::scope(|sc| {
+                    let (sink, m, out) = (&sink, m.as_str(), &out);
+                    let h = sc.spawn(move || {
+                        let _g = Guard(sink, m, out);
+                        panic!("unwinding with a metrics guard alive");
+                    });
+                    let _ = h.join();
+                });
+                let r = out.lock().unwrap().take();
+                res.push(match r {
+                    Some(Ok(n)) => format!("k{}", n),
+                    Some(Err(_)) => "e".to_string(),
+                    None => "e?".to_string(),
+                });
+                recv.drain(&mut got, 0);
+            }
             "F" => {
                 res.push(match sink.flush() {
                     Ok(()) => "k0".to_string(),
@@ -173,7 +200,9 @@ fn run_ops(sink: AnySink, recv: &mut Recv, ops: &str, queued: bool) -> String {
                 res.push("-".to_string());
                 recv.drain(&mut got, 0);
             }
-            "l" => {
+            "l" | "c" => {
+                // l: the listener goes away with its socket file (sends fail with ENOENT); c: it closes its socket but the
+                // file stays (sends fail with ECONNREFUSED) - an outage either way
                 if let Recv::Unix(s, p) = recv {
                     // take what already arrived, then go away
                     if let Some(sock) = s.as_ref() {
@@ -183,13 +212,16 @@ fn run_ops(sink: AnySink, recv: &mut Recv, ops: &str, queued: bool) -> String {
                         }
                     }
                     *s = None;
-                    let _ = std::fs::remove_file(&p);
+                    if op == "l" {
+                        let _ = std::fs::remove_file(&p);
+                    }
                 }
                 res.push("-".to_string());
             }
             "L" => {
                 if let Recv::Unix(s, p) = recv {
                     if s.is_none() {
+                        let _ = std::fs::remove_file(&p);
                         let sock = UnixDatagram::bind(&p).expect("rebind");
                         sock.set_nonblocking(true).unwrap();
                         *s = Some(sock);
@@ -352,7 +384,28 @@ pub fn run_case(line: &str) -> String {
         // UA6 <u|cap>: the address list is [an IPv6 loopback listener, an IPv4 loopback listener] and the sending socket is
         // an IPv6 one: the first resolved address is the IPv6 one, whatever family comes later.
         // observation: first:<datagrams at the first listener, hex>|second:<count at the second>|R:<results>  or noipv6
-        "UA6" => {
+        // UE: an address argument that resolves to NO address (an empty slice) through the three UDP constructors: an
+        // invalid-input error each time, never a panic
+        "UE" => {
+            let empty: Vec<SocketAddr> = vec![];
+            let mut out = vec![];
+            for k in 0..3 {
+                let sock = UdpSocket::bind("127.0.0.1:0").expect("bind");
+                let e2 = empty.clone();
+                let r = crate::util::catch(move || match k {
+                    0 => UdpMetricSink::from(&e2[..], sock).map(|_| ()),
+                    1 => BufferedUdpMetricSink::from(&e2[..], sock).map(|_| ()),
+                    _ => BufferedUdpMetricSink::with_capacity(&e2[..], sock, 64).map(|_| ()),
+                });
+                out.push(match r {
+                    Err(_) => "panic".to_string(),
+                    Ok(Ok(())) => "ok".to_string(),
+                    Ok(Err(e)) => (if e.kind() == cadence::ErrorKind::InvalidInput { "inv" } else { "io" }).to_string(),
+                });
+            }
+            format!("ctor:{}", out.join(","))
+        }
+        "UA6" | "UA4" => {
             let r1 = match UdpSocket::bind("[::1]:0") {
                 Ok(s) => s,
                 Err(_) => return "noipv6".to_string(),
@@ -360,7 +413,10 @@ pub fn run_case(line: &str) -> String {
             r1.set_nonblocking(true).unwrap();
             let r2 = UdpSocket::bind("127.0.0.1:0").expect("bind");
             r2.set_nonblocking(true).unwrap();
-            let send = match UdpSocket::bind("[::]:0") {
+            // UA6: the sender is a dual-stack socket (both addresses reachable); UA4: the sender is an IPv4 socket, which
+            // cannot reach the first (IPv6) address of the list: every send is refused at once - and that is the answer,
+            // the second address is not a fallback
+            let send = match UdpSocket::bind(if t[0] == "UA4" { "127.0.0.1:0" } else { "[::]:0" }) {
                 Ok(s) => s,
                 Err(_) => return "noipv6".to_string(),
             };
@@ -387,15 +443,17 @@ pub fn run_case(line: &str) -> String {
                 Ok(()) => "k0".to_string(),
                 Err(_) => "e".to_string(),
             });
+            let st = sink.stats();
             drop(sink);
             let (mut first, mut second) = (vec![], vec![]);
             Recv::Udp(r1).drain(&mut first, 30);
             Recv::Udp(r2).drain(&mut second, 10);
             format!(
-                "first:{}|second:{}|R:{}",
+                "first:{}|second:{}|R:{}|S:{}",
                 first.iter().map(|d| hex(d)).collect::<Vec<_>>().join(";"),
                 second.len(),
-                res.join(",")
+                res.join(","),
+                stats_str(&st)
             )
         }
         // UO <u|cap>: a small metric, one of 70 000 bytes (more than a UDP datagram can carry: the OS refuses the send),
